@@ -27,6 +27,7 @@ pub struct ParserState<'a> {
     token_cursor: TokenIter<'a>,
     filedata: &'a [String],
     pub(crate) filenames: &'a [Filename],
+    include_roots: &'a [usize],
     pub(crate) last_token_position: u32,
     sequential_id: u32,
     pub(crate) log_msgs: &'a mut Vec<A2lError>,
@@ -263,13 +264,15 @@ impl<'a> ParserState<'a> {
         log_msgs: &'b mut Vec<A2lError>,
         strict: bool,
     ) -> ParserState<'b> {
-        Self::new_internal(
+        let mut parser = Self::new_internal(
             &tokenresult.tokens,
             &tokenresult.filedata,
             &tokenresult.filenames,
             log_msgs,
             strict,
-        )
+        );
+        parser.include_roots = &tokenresult.include_roots;
+        parser
     }
 
     pub(crate) fn new_internal<'b>(
@@ -283,6 +286,7 @@ impl<'a> ParserState<'a> {
             token_cursor: TokenIter { tokens, pos: 0 },
             filedata,
             filenames,
+            include_roots: &[],
             last_token_position: 0,
             sequential_id: 0,
             log_msgs,
@@ -438,7 +442,9 @@ impl<'a> ParserState<'a> {
         if fileid == 0 || fileid >= self.filenames.len() {
             None
         } else {
-            Some(self.filenames[fileid].to_string())
+            // an element from a nested include file belongs to the include directive of the main file
+            let root = self.include_roots.get(fileid).copied().unwrap_or(fileid);
+            Some(self.filenames[root].to_string())
         }
     }
 
